@@ -4,7 +4,7 @@
    iteration of DFA.from_finite_language(lang) into statements about the list lang itself. *)
 From Coq Require Import List Arith NArith Bool Lia Permutation.
 From AV Require Import Base.Util Spec.Lang Spec.FA Spec.Preds Spec.Words Model.Count Model.Construct Model.FiniteLang
-     Proofs.Compose Props.P_C13 Props.P_C15.
+     Proofs.Count Proofs.Compose Props.P_C13 Props.P_C15.
 Import ListNotations.
 
 (* len(DFA.from_finite_language(lang)) is the number of words of lang - for both values of as_partial; never
@@ -78,6 +78,36 @@ Proof.
 Qed.
 Print Assumptions C13_finite_language_iteration.
 
+(* DFA.of_length(min_length=lo, max_length=hi).count_words_of_length(k): |alphabet|^k for k in the range, else 0
+   (C15_of_length_lang / C15_of_length_valid, then C13_cnt_exact) *)
+Definition in_range (lo : nat) (hi : option nat) (k : nat) : bool :=
+  Nat.leb lo k && match hi with Some h => Nat.leb k h | None => true end.
+
+Theorem C13_of_length_count : forall syms lo hi k, NoDup syms ->
+  cnt (of_length_m syms lo hi None) k (d_init (of_length_m syms lo hi None)) =
+  if in_range lo hi k then N.of_nat (length syms ^ k) else 0%N.
+Proof.
+  intros syms lo hi k Hnd. set (m := of_length_m syms lo hi None).
+  assert (Hv : valid_dfa m = true) by (apply C15_of_length_valid; exact Hnd).
+  assert (Hsy : d_syms m = syms) by (unfold m, of_length_m; destruct hi; reflexivity).
+  rewrite (C13_cnt_exact m k Hv). rewrite Hsy.
+  assert (Hacc : forall w, In w (all_words (set_of syms) k) -> dfa_acc m w = in_range lo hi k).
+  { intros w Hw. apply all_words_In in Hw. destruct Hw as [Hlen Hov].
+    assert (Hov' : Forall (fun a => In a syms) w).
+    { rewrite Forall_forall in *. intros a Ha. apply set_of_In. apply Hov. exact Ha. }
+    pose proof (C15_of_length_lang syms lo hi None w) as HL.
+    unfold L_dfa, promised, flagP, length_in_range, word_over in HL. fold m in HL.
+    simpl Construct.counted_set in HL. rewrite (counted_over syms w Hov') in HL. rewrite Hlen in HL.
+    apply eq_true_iff_eq. rewrite HL. unfold in_range. rewrite andb_true_iff, Nat.leb_le. split.
+    - intros [_ [H1 H2]]. split; [exact H1|]. destruct hi; [apply Nat.leb_le; exact H2|reflexivity].
+    - intros [H1 H2]. split; [exact Hov'|]. split; [exact H1|]. destruct hi; [apply Nat.leb_le; exact H2|exact I]. }
+  destruct (in_range lo hi k).
+  - rewrite (filter_all _ _ Hacc). rewrite all_words_length. do 2 f_equal.
+    apply nodup_same_members_length; [apply ssorted_NoDup; apply set_of_sorted|exact Hnd|intro x; apply set_of_In].
+  - rewrite (filter_none _ _ Hacc). reflexivity.
+Qed.
+Print Assumptions C13_of_length_count.
+
 (* non-vacuity: the five words of the C15 example, complete and partial *)
 Example C13_example_finite_language :
   let lang := [[0; 1]; [0; 0; 1]; [1]; [1; 1]; []] in
@@ -87,4 +117,10 @@ Example C13_example_finite_language :
                 end in
   run false = (Ok 5%N, Ok (Some 3), Ok 0, Ok [[]; [1]; [0; 1]; [1; 1]; [0; 0; 1]]) /\
   run true = run false.
+Proof. vm_compute. repeat split. Qed.
+
+Example C13_example_of_length :
+  let m := of_length_m [0; 1; 2] 1 (Some 3) None in
+  map (fun k => cnt m k (d_init m)) [0; 1; 2; 3; 4] = [0; 3; 9; 27; 0]%N /\ cardinality m = Ok 39%N /\
+  cnt (of_length_m [0; 1] 2 None None) 5 0 = 32%N.
 Proof. vm_compute. repeat split. Qed.
